@@ -139,6 +139,7 @@ def variants_for(sc, rng, tier):
           ("clock", {}, {"vclock": {"pc_step": 0.0137, "wall": 4.0e9, "wall_step": -3.5}}),
           ("warm", {}, {"warm": True}),
           ("warm-perturbed", {}, {"warm_perturbed": True}),
+          ("warm-recycled", {}, {"warm_recycled": True}),
           ("cwd", {}, {"cwd": "/var/tmp/c01_cwd_%d" % rng.randint(0, 10 ** 9)})]
     par_on = bool(((sc["cfg"].get("perf") or {}).get("parallel") or {}).get("enabled"))
     if par_on or tier != "quick":
@@ -207,6 +208,9 @@ def check_scenario(sc, sess: Session, rng, tier):
         sess.sample({"variant": name, "env": env, "variant_args": variant, "turns": sc["turns"][:2], "cfg": sc["cfg"], "graphs": len(sc["world"]["graphs"]), "episodes": len(sc["world"]["eps"])})
         vb = to_bundle(res["out"])
         base = rb
+        if name == "warm-recycled":
+            for k_ in res["out"].get("_recycled") or []:
+                sess.count("warm_recycled:" + k_ + "_on_a_dead_object's_address")
         if name == "now-unset":
             if ref_now is None:
                 r0 = par.run_py("vlib.replayworker", {"scenario": sc, "variant": {"now_none": True, "datetime_target_ms": sc["turns"][0]["now_ms"]}}, env={"PYTHONHASHSEED": "0"}, timeout=300)
@@ -221,10 +225,10 @@ def check_scenario(sc, sess: Session, rng, tier):
         diffs = diff_bundles(base, vb)
         paths = diff_paths(base, vb)
         mech = f"{name}:differs"
-        if name in ("warm", "jitter", "warm-perturbed"):
+        if name in ("warm", "jitter", "warm-perturbed", "warm-recycled"):
             only_diag = all((p.startswith("t1.jsonl:") and p.split(":", 1)[1] in DIAG_T1) or (p.startswith("t2.jsonl:") and p.split(":", 1)[1] in DIAG_T2) for p in paths)
             if only_diag and paths:
-                mech = f"{'warm' if name == 'warm-perturbed' else name}:stage-cache-diagnostics-in-canonical-logs"
+                mech = f"{'warm' if name in ('warm-perturbed', 'warm-recycled') else name}:stage-cache-diagnostics-in-canonical-logs"
         if name == "now-unset":
             mech = "now-unset:retrieval-follows-wall-clock-date"
         sess.violation(mech, case, {"paths": paths[:8], "diffs": diffs[:4]})
@@ -259,6 +263,7 @@ def main(tier: str, seed: int):
     sess.require("variant:hash", 20)
     sess.require("variant:clock", 15)
     sess.require("variant:warm", 8)
+    sess.require("warm_recycled:mem_index_on_a_dead_object's_address", 5)
     sess.finish()
 
 
